@@ -45,7 +45,8 @@ def concretise(cmd, rnd, extras=True, chain=None):
         else:
             argv += ['--helix', '%s7,%g,0.6,0.0011,%g,%g,0.25,0.3' % (tg, 0.9 + 0.1 * o['id'], 0.3 + 0.2 * o['id'], 0.35 + 0.2 * o['id'])]
     for t in cmd['taper']:
-        argv.append('--taper-wire=%d,%d' % (t['tag'], t['typ']))
+        lim = rnd.choice(['', ',0.05', ',0,2', ',0.05,1.5'])
+        argv.append('--taper-wire=%d,%d%s' % (t['tag'], t['typ'], lim))
     for i, (p, v) in enumerate(zip(cmd['pulses'], cmd['volts'])):
         k = i + 1
         argv.append('--excitation-pulse=%d' % k if p['form'] == 'abs' else
@@ -143,7 +144,8 @@ def project(m):
     for g in m.geo:
         ends = np.array([[s.p1, s.p2] for s in g.segments]).reshape(-1)
         objs.append(dict(cls=type(g).__name__, tag=int(g.tag), nseg=int(g.n_segments),
-                         segtype=int(getattr(g, 'segtype', 0)), r=float(g.r_orig), ends=ends))
+                         segtype=int(getattr(g, 'segtype', 0)), r=float(g.r_orig), ends=ends,
+                         tmin=float(getattr(g, 'taper_min', None) or 0), tmax=float(getattr(g, 'taper_max', None) or 0)))
     srcs = [dict(idx=int(s.idx), v=complex(s.voltage)) for s in m.sources]
     loads = sorted([(load_params(l)[0], [round_sig(x) for x in load_params(l)[1]],
                      sorted(int(p.idx) for p in l.pulses)) for l in m.loads],
@@ -172,6 +174,8 @@ def compare(p1, p2):
             bad.append('object-geometry')
         if not np.isclose(a['r'], b['r'], rtol=1e-8):
             bad.append('object-radius')
+        if not (np.isclose(a['tmin'], b['tmin'], rtol=1e-9) and np.isclose(a['tmax'], b['tmax'], rtol=1e-9)):
+            bad.append('object-taper-limits')
     if [s['idx'] for s in p1['srcs']] != [s['idx'] for s in p2['srcs']]:
         bad.append('source-pulses')
     elif not np.allclose([s['v'] for s in p1['srcs']], [s['v'] for s in p2['srcs']], rtol=2e-6):
